@@ -145,6 +145,8 @@ def check_case(ctx, case):
     res.execs += 1
     if r.rc != 0:
         ctx.cleanup_case(d)
+        if notes.either:
+            return res.skip('chain contains a no-op override that may legitimately be rejected as useless')
         return res.violate('skeleton', 'bklr failed: %s' % r.err[-300:].decode('utf-8', 'replace'), layers=layers, fmts=fmts)
     try:
         got = decode_out(ofmt, r.out)
